@@ -26,10 +26,13 @@ struct Op {
     payload: usize,
 }
 
-fn payloads() -> [Payload; 2] {
+const N_PAYLOADS: usize = 3;
+
+fn payloads() -> [Payload; N_PAYLOADS] {
     [
         Payload { eval: 150, mv: Some(Move::new(12, 28, Piece::Pawn, MoveType::Quiet)), bounds: Bounds::Exact },
         Payload { eval: -32767, mv: None, bounds: Bounds::Upper },
+        Payload { eval: 77, mv: Some(Move::new(6, 21, Piece::Knight, MoveType::Quiet)), bounds: Bounds::Lower },
     ]
 }
 
@@ -44,7 +47,7 @@ fn all_ops() -> Vec<Op> {
     let mut v = Vec::new();
     for key in 0..3 {
         for depth in 0..3u8 {
-            for payload in 0..2 {
+            for payload in 0..N_PAYLOADS {
                 v.push(Op { key, depth, payload });
             }
         }
@@ -66,7 +69,7 @@ fn op_text(op: Op) -> String {
 }
 
 /// Runs one sequence on a fresh table; after every operation compares every retrieve.
-fn run_sequence(seq: &[Op], ks: &[u64; 4], pl: &[Payload; 2]) -> Result<(), String> {
+fn run_sequence(seq: &[Op], ks: &[u64; 4], pl: &[Payload; N_PAYLOADS]) -> Result<(), String> {
     let r = guard(|| {
         let mut tt = TranspositionTable::new();
         let mut model: Model = [None; 3];
@@ -114,7 +117,7 @@ pub fn run(tier: &str, seed: u64, out: &str) {
     let pl = payloads();
     let ops = all_ops();
     let max_len = if tier == "thorough" { 6 } else { 5 };
-    // enumerate sequences by their first two operations (324 work units), DFS below
+    // enumerate sequences by their first two operations (729 work units), DFS below
     let mut units = Vec::new();
     for a in 0..ops.len() {
         for b in 0..ops.len() {
@@ -124,7 +127,7 @@ pub fn run(tier: &str, seed: u64, out: &str) {
     let counts: Vec<u64> = par_map(&units, |&(a, b)| {
         let mut n = 0u64;
         let mut seq = vec![ops[a], ops[b]];
-        fn rec(seq: &mut Vec<Op>, ops: &[Op], max_len: usize, ks: &[u64; 4], pl: &[Payload; 2], rep: &Report, n: &mut u64) {
+        fn rec(seq: &mut Vec<Op>, ops: &[Op], max_len: usize, ks: &[u64; 4], pl: &[Payload; N_PAYLOADS], rep: &Report, n: &mut u64) {
             // each complete sequence is run on its own fresh table (prefixes are checked as
             // part of the longer runs, since every step is compared)
             if seq.len() == max_len {
@@ -185,11 +188,11 @@ pub fn run(tier: &str, seed: u64, out: &str) {
         .set("states", seen.len())
         .set("transitions", transitions)
         .set("traces_validated_against_impl", validated + sequences)
-        .set("evaluations", sequences + 18)
+        .set("evaluations", sequences + ops.len() as u64)
         .set("distinct_nontrivial", sequences)
         .set("sequence_length", max_len)
-        .set("alphabet", "store x {3 keys equal in their low 40 / low 63 bits} x {depth 0,1,2} x {2 payloads}; after every operation retrieve on the 3 keys and on a never-stored key")
-        .set("rule", format!("every sequence of exactly {} stores (18^{}), each on a fresh real table, every step compared with a map model (replace iff new depth >= stored depth); plus every transition of the 343-state model graph replayed on a fresh real table", max_len, max_len))
+        .set("alphabet", "store x {3 keys equal in their low 40 / low 63 bits} x {depth 0,1,2} x {3 payloads: Exact with a move, Upper without, Lower with another move}; after every operation retrieve on the 3 keys and on a never-stored key")
+        .set("rule", format!("every sequence of exactly {} stores ({}^{}), each on a fresh real table, every step compared with a map model (replace iff new depth >= stored depth); plus every transition of the {}-state model graph replayed on a fresh real table", max_len, ops.len(), max_len, seen.len()))
         .set("exhaustive", true)
         .set("samples", J::Arr(vec![
             J::Str(seq_arg(&[ops[0], ops[7], ops[3]])),
